@@ -65,6 +65,32 @@ pub enum SigKind {
     OnesDer,
 }
 
+/// what the attacker answers the client's second flight with
+#[derive(Clone, Copy, Debug, PartialEq, Eq)]
+pub enum Finale {
+    /// the proper ChangeCipherSpec + encrypted Finished (only possible when it holds the keys)
+    Proper,
+    /// a Finished in the clear (epoch 0) whose verify_data is `len` bytes long, all `fill`
+    Plain { len: u8, fill: u8 },
+    /// ChangeCipherSpec, then the same cleartext Finished (still epoch 0)
+    CcsThenPlain { len: u8, fill: u8 },
+    /// ChangeCipherSpec, then an epoch-1 record that is not encrypted at all (a bare Finished)
+    CcsThenBareEpoch1 { len: u8 },
+}
+
+pub const FINALES: &[Finale] = &[
+    Finale::Plain { len: 0, fill: 0 },
+    Finale::Plain { len: 1, fill: 0 },
+    Finale::Plain { len: 11, fill: 0 },
+    Finale::Plain { len: 12, fill: 0 },
+    Finale::Plain { len: 12, fill: 0xff },
+    Finale::Plain { len: 13, fill: 0 },
+    Finale::CcsThenPlain { len: 0, fill: 0 },
+    Finale::CcsThenPlain { len: 12, fill: 0 },
+    Finale::CcsThenBareEpoch1 { len: 0 },
+    Finale::CcsThenBareEpoch1 { len: 12 },
+];
+
 pub const SIG_KINDS: &[SigKind] = &[SigKind::AttackerDer, SigKind::AttackerRaw, SigKind::AttackerDerTrailing, SigKind::HonestOverOtherShare, SigKind::Empty, SigKind::ZeroDer, SigKind::OnesDer];
 
 /// own encoder (the repository's always writes the label 4,3)
@@ -86,6 +112,8 @@ pub struct ScriptedServer {
     secret: Option<EphemeralSecret>,
     public: Vec<u8>,
     script: Vec<Step>,
+    finale: Finale,
+    pub finale_sent: bool,
     started: bool,
     msg_seq: u16,
     rec_seq: u64,
@@ -161,6 +189,8 @@ impl ScriptedServer {
             secret: Some(secret),
             public,
             script,
+            finale: Finale::Proper,
+            finale_sent: false,
             started: false,
             msg_seq: 0,
             rec_seq: 0,
@@ -173,6 +203,11 @@ impl ScriptedServer {
             client_finished_verified: false,
             final_flight: vec![],
         }
+    }
+
+    pub fn with_finale(mut self, f: Finale) -> Self {
+        self.finale = f;
+        self
     }
 
     /// Gives the script access to the genuine server as a signing oracle (Step::HonestKeyExchange).
@@ -338,6 +373,29 @@ impl ScriptedServer {
                                 flight.push(self.hs(14, &[]));
                                 self.first_flight = flight.clone();
                                 out.extend(flight);
+                            }
+                            16 if self.started && self.finale != Finale::Proper => {
+                                if self.finale_sent {
+                                    continue;
+                                }
+                                self.finale_sent = true;
+                                let (ccs, epoch, len, fill) = match self.finale {
+                                    Finale::Plain { len, fill } => (false, 0u16, len, fill),
+                                    Finale::CcsThenPlain { len, fill } => (true, 0, len, fill),
+                                    Finale::CcsThenBareEpoch1 { len } => (true, 1, len, 0),
+                                    Finale::Proper => unreachable!(),
+                                };
+                                let mut dg = vec![];
+                                if ccs {
+                                    dg.extend(wire::encode_record(20, 0, self.rec_seq, &[1]));
+                                    self.rec_seq += 1;
+                                }
+                                let body = vec![fill; len as usize];
+                                let h = Hs { msg_type: 20, length: body.len() as u32, message_seq: self.msg_seq, frag_off: 0, frag_len: body.len() as u32, body };
+                                let raw = wire::encode_hs(&h);
+                                let seq = if epoch == 0 { self.rec_seq } else { 0 };
+                                dg.extend(wire::encode_record(22, epoch, seq, &raw));
+                                out.push(dg);
                             }
                             16 if self.keys.is_none() && self.started => {
                                 self.transcript.extend_from_slice(&raw);
